@@ -48,6 +48,8 @@ Definition run_C13 (i : term) : term :=
     let tab := shift_syms (gz (gn i 1)) (map sym_of (gl (gn i 2))) in
     TL (map (fun a => of_optname (addr_info tab a)) (gzs (gn i 3)))
   else if String.eqb op "maps" then TL []
+  else if String.eqb op "tooladdr" then
+    let v := tool_addr (gz (gn i 1)) (gz (gn i 2)) in TL [TZ v; TZ v; TZ v]
   else TL [TS "unknown-op"].
 
 (* objaddr cases produced by the loader-driven generators carry the load bias (-1 = none) *)
@@ -81,6 +83,10 @@ Definition spec_C13 (i o : term) : bool :=
     let addrs := gzs (gn i 3) in
     (List.length addrs =? List.length (gl o))%nat &&
     forallb (fun ar => spec_addr_info tab (fst ar) (optname_of (snd ar))) (combine addrs (gl o))
+  else if String.eqb op "tooladdr" then
+    let base := gz (gn i 1) in let a := gz (gn i 2) in
+    if (0 <=? base) && (base <=? a) && (a <? two64)
+    then forallb (fun t => gz t =? a - base) (gl o) && (List.length (gl o) =? 3)%nat else true
   else if String.eqb op "maps" then
     (* a file-backed line of /proc/self/maps of a real process: it must be a piece of the image the
        loader model predicts for one of the segments (validates S_Elf against the kernel) *)
